@@ -121,7 +121,8 @@ def blk(e):
         body = e.children[0].children
         if body.endswith("\n"):
             body = body[:-1]
-        return ("CODEBLOCK", (lang + " " + extra).strip(), body)
+        # (number of lines: an empty block and a block holding one empty line have the same body text)
+        return ("CODEBLOCK", (lang + " " + extra).strip(), body, 0 if e.children[0].children == "" else body.count("\n") + 1)
     if t == "ThematicBreak":
         return ("HR",)
     if t == "LinkRefDef":
